@@ -2,8 +2,9 @@
 
 History differential: random operation sequences are executed against a real Wallet (harness/impl/c08_impl.py) and
 against the extracted Gallina state machine (coq/Model/Ledger.v via ocaml/c08_driver.ml).  After EVERY operation
-balance(), utxos(), the per-key balances and the stored transactions are compared, and the property statement is
-evaluated on the implementation's own answers by an oracle that does not use the model (prop_step).
+balance(), utxos(), the per-key balances, the stored transactions and balance / utxos of EVERY (network, account)
+group of the wallet are compared, and the property statement is evaluated on the implementation's own answers by an
+oracle that does not use the model (Oracle.step / per_account), for every group.
 Failing histories are shrunk to a minimal operation list before the replay is written."""
 import json, os, random, re, sys, threading, time
 import core
@@ -33,53 +34,96 @@ ASSUMPTIONS = [
     'through WalletKey objects and through a second Wallet object on the same file are all compared)',
     'coin selection itself (which unspent outputs are picked) is taken from the implementation and checked for '
     'admissibility (Select); sweep completeness and amounts are C07',
-    'one network (bitcoinlib_test, built-in offline provider) and one account per wallet in the histories; '
-    'transactions_update / scan need a provider with gettransactions and are not exercised',
+    'several accounts and networks: the HD histories open up to 3 accounts on the wallet\'s network (bitcoinlib_test, '
+    'built-in offline provider) and up to 2 on a second network (litecoin; its provider is a deterministic stub in '
+    'the adapter: one confirmed output per address, fixed fee rate, broadcast = txid), create keys of the groups in '
+    'interleaved key-id order, and name the (network, account) group in new_key / get_key / utxos_update / send_to / '
+    'sweep; after every operation balance(account_id, network), utxos(account_id, network) and the key balances '
+    'are read for EVERY group (and compared with the model\'s BalanceOf / UtxosOf steps), and the independent '
+    'oracle checks balance(group) == sum utxos(group) == sum of the balances of the keys of the group for every '
+    'group, every key balance == that key\'s unspent outputs, and that no key changes its account',
+    'not exercised by default (recorded-finding class cross_account_output, proposed in fixes/C08-known-multiacct.json; '
+    'generated as soon as that entry is in known_findings.json / VERIF_EXTRA_KNOWN): operations that put an output of '
+    'a key of one account into a transaction row filed under another account (utxo_add on a key of a non-default '
+    'account, sweep of a non-default account to an own address, payments between accounts of the wallet, '
+    'transaction_import of another account\'s transaction).  There the Gallina model is NOT faithful (it keeps the '
+    'key\'s group and sums a key\'s rows over all groups; the library overwrites DbKey.account_id and keeps the last '
+    '(key, account) row); the theorems exclude the class through op_ok, has_cross decides it on the model state',
+    'accounts on the second network are always named with their account id (balance(network=n) without account_id '
+    'resolves the account from the key table; not modelled); transactions_update / scan need a provider with '
+    'gettransactions and are not exercised; mixed witness types in one wallet are not exercised',
 ]
-RULE = ('random histories over {new_key, get_key, utxos_update (rescan / no rescan / one key), utxo_add (colliding '
-        'outpoints), send_to / sweep (own or external destination, broadcast or not, min_confirms 0/1), later '
-        'broadcast / store / import / reload of a created transaction, transaction_delete, reopen} for HD (segwit, '
-        'legacy, p2sh-segwit), single-key and 2-of-2 multisig wallets; one evaluation = one operation followed by a '
-        'full observation compared with the model; a step is non-trivial when it changed balance, unspent set, '
-        'per-key balances or stored transactions; distinct by (kind, operation prefix)')
+RULE = ('random histories over {new_key, get_key, new_account (own and second network), utxos_update (rescan / no '
+        'rescan / one key / naming an account or network), utxo_add and utxos_update(utxos=..) (colliding outpoints), '
+        'send_to / sweep (own or external destination, broadcast or not, min_confirms 0/1, from any (network, account) '
+        'group), later broadcast / store / import / reload of a created transaction, transaction_delete, reopen} for HD '
+        '(segwit, legacy, p2sh-segwit; half of them with several accounts, a quarter with a second network), single-key '
+        'and 2-of-2 multisig wallets; corpus histories with interleaved key ids of two accounts / two networks; one '
+        'evaluation = one operation followed by a full observation (default readings, then balance / utxos of every '
+        'group, key balances and key groups) compared with the model; a step is non-trivial when it changed balance, '
+        'unspent set, per-key balances, stored transactions or a per-group reading; distinct by (kind, operation prefix)')
 
 KINDS_QUICK = ['hd'] * 5 + ['hdl', 'hdp', 'single', 'single', 'ms']
+KNOWN_CROSS = 'cross_account_output'
 
 
 # ---------------------------------------------------------------- generator
-def gen_history(rng, lo, hi):
+def gen_history(rng, lo, hi, multi=False, cross=False, nets=False):
+    """multi: the history opens further accounts and most calls name one (suffix :A, an index into the wallet's list
+    of (network, account) groups at that moment).  nets: also accounts on a second network.  cross: also operations
+    that put an output of a key of one account into a transaction filed under another account (recorded finding
+    class cross_account_output)."""
     n = rng.randrange(lo, hi + 1)
     ops = []
+
+    def acc(p=0.75):
+        """account suffix: '' = the call passes no account_id"""
+        return ':%d' % rng.randrange(5 if nets else 3) if multi and rng.random() < p else ''
+
+    def own():
+        return rng.choice(['o', 'o', 'x'] if cross else ['o']) + str(rng.randrange(6))
+
     for i in range(n):
         r = rng.random()
-        if i == 0 and rng.random() < 0.7:
+        if multi and i < 6 and rng.random() < 0.6:
+            # the prologue interleaves key ids of different accounts: new_account / new_key(account_id=..) in turn
+            ops.append(rng.choice(['na', 'nk:0', 'nk:1', 'nk:2', 'nk'] + (['nn', 'nn', 'nk:3', 'nk:4'] if nets else [])))
+        elif i == 0 and rng.random() < 0.7:
             ops.append('uu')
+        elif multi and r < 0.03:
+            ops.append('nn' if nets and rng.random() < 0.5 else 'na')
         elif r < 0.06:
-            ops.append('nk')
+            ops.append('nk' + acc())
         elif r < 0.10:
-            ops.append('gk')
+            ops.append('gk' + acc())
         elif r < 0.20:
-            ops.append('uu')
+            ops.append('uu' + acc())
         elif r < 0.25:
-            ops.append('un')
+            ops.append('un' + acc())
         elif r < 0.30:
-            ops.append('uk:%d' % rng.randrange(6))
+            ops.append('uk:%d' % rng.randrange(16 if nets else 12 if multi else 6))
         elif r < 0.42:
-            ops.append('ua:%d:%d:%d:%d:%d' % (rng.randrange(6), rng.choice([600, 1000, 5000, 70000, 2500000, 100000000]),
+            ops.append('%s:%d:%d:%d:%d:%d' % ('uA' if cross and rng.random() < 0.4 else 'ua',
+                                               rng.randrange(16 if nets else 12 if multi else 6),
+                                               rng.choice([600, 1000, 5000, 70000, 2500000, 100000000]),
                                                rng.randrange(4), rng.randrange(2), rng.choice([0, 1, 3, 10])))
         elif r < 0.60:
-            ops.append('st:%s:%d:%d:%d' % (rng.choice(['e', 'e', 'o%d' % rng.randrange(6)]),
-                                           rng.choice([1, 100, 300, 500, 900, 990, 1000, 1200]),
-                                           1 if rng.random() < 0.7 else 0, rng.choice([0, 1, 1])))
+            a = acc()
+            ops.append('st:%s:%d:%d:%d%s' % (rng.choice(['e', 'e', own()]),
+                                             rng.choice([1, 100, 300, 500, 900, 990, 1000, 1200]),
+                                             1 if rng.random() < 0.7 else 0, rng.choice([0, 1, 1]), a))
         elif r < 0.68:
-            ops.append('sw:%s:%d:%d' % (rng.choice(['e', 'e', 'o%d' % rng.randrange(6)]),
-                                        1 if rng.random() < 0.7 else 0, rng.choice([0, 1, 1])))
+            a = acc()
+            # sweep(account_id=a) hands the transaction to send() without the account: with an own destination the
+            # output would sit in a transaction of the default account (class cross_account_output)
+            dest = rng.choice(['e', 'e', own()]) if (a == '' or cross) else 'e'
+            ops.append('sw:%s:%d:%d%s' % (dest, 1 if rng.random() < 0.7 else 0, rng.choice([0, 1, 1]), a))
         elif r < 0.74:
             ops.append('bc:%d' % rng.randrange(8))
         elif r < 0.77:
             ops.append('ps:%d' % rng.randrange(8))
         elif r < 0.80:
-            ops.append('im:%d' % rng.randrange(8))
+            ops.append('%s:%d' % ('iM' if cross and rng.random() < 0.5 else 'im', rng.randrange(8)))
         elif r < 0.83:
             ops.append('ld:%d' % rng.randrange(12))
         elif r < 0.91:
@@ -89,7 +133,7 @@ def gen_history(rng, lo, hi):
     return ops
 
 
-def gen_histories(rng, tier):
+def gen_histories(rng, tier, cross=False):
     if tier == 'thorough':
         n, lo, hi = 1000, 5, 100
     else:
@@ -100,9 +144,22 @@ def gen_histories(rng, tier):
     hs.append(('hd', 'corpus1', ['uu', 'st:e:300:1:1', 'de:2']))
     hs.append(('hd', 'corpus2', ['uu', 'st:e:300:0:1', 'st:e:300:0:1', 'bc:0', 'bc:1', 'de:2', 'de:3']))
     hs.append(('hd', 'corpus3', ['uu', 'st:o0:300:0:1', 'ps:0', 'st:e:990:1:0', 'bc:0', 'ro']))
+    # several accounts with interleaved key ids: account 0 owns keys below and above the keys of account 1
+    hs.append(('hd', 'corpus4', ['nk', 'na', 'nk:1', 'nk:0', 'uu:0', 'uu:1', 'ro']))
+    hs.append(('hdl', 'corpus5', ['nk', 'na', 'nk:1', 'nk:0', 'ua:1:100000:0:0:5', 'ua:3:20000:1:0:5',
+                                  'ua:5:400000:2:1:5', 'ro', 'st:e:900:1:1:0']))
+    hs.append(('hd', 'corpus6', ['na', 'na', 'nk:2', 'nk:1', 'nk:0', 'uu:2', 'uu:0', 'st:o1:500:1:1:2', 'sw:e:1:1:1',
+                                 'uu:1', 'sw:e:1:0:1', 'ro', 'de:3']))
+    # a second network: groups (bitcoinlib_test, 0), (bitcoinlib_test, 1), (litecoin, 0) with interleaved key ids
+    hs.append(('hd', 'corpus7', ['nn', 'nk', 'na', 'nk:2', 'nk:0', 'uu', 'uu:1', 'st:e:500:1:1:2', 'ro', 'sw:e:1:0:2',
+                                 'ua:3:70000:1:0:3', 'de:1']))
     for i in range(n):
         kind = KINDS_QUICK[i % len(KINDS_QUICK)]
-        hs.append((kind, 'h%d_%d' % (rng.getrandbits(32), i), gen_history(rng, lo, hi)))
+        # accounts exist for the HD kinds only (new_account needs a BIP32 master key with an account level)
+        multi = kind in ('hd', 'hdl', 'hdp') and i % 2 == 0
+        hs.append((kind, 'h%d_%d' % (rng.getrandbits(32), i),
+                   gen_history(rng, lo, hi, multi=multi, cross=cross and multi and i % 4 == 0,
+                               nets=multi and i % 4 == 2)))
     return hs
 
 
@@ -145,13 +202,18 @@ def run_impl_parallel(hs, rundir, workers=WORKERS):
     return results, errs
 
 
+def obs_groups(o):
+    """The (network, account) groups the adapter read one by one, in its order: "nw.acct,..."."""
+    return ','.join(x.split('~', 1)[0] for x in o.get('pa', '').split('+') if x)
+
+
 def model_line(r):
     toks = []
     for s in r['steps']:
         toks += s['mops']
         if s['obs'] is None:
             break
-        toks.append('OF' if 'txs2' in s['obs'] else 'O')
+        toks.append(('OF' if 'txs2' in s['obs'] else 'O') + ':' + (obs_groups(s['obs']) or '-'))
     return 'hist %s 0 %d %d %s' % (MODEL_VARIANT, r['acct'], 1 if r['bip32'] else 0, ' '.join(toks))
 
 
@@ -187,13 +249,30 @@ def parse_kb(s):
     return {int(a): int(b) for a, b in (x.split(':') for x in s.split(',') if x)}
 
 
+def parse_ka(s):
+    """key id -> "nw.acct" as the wallet's key table says"""
+    return {int(a): b for a, b in (x.split(':') for x in s.split(',') if x)}
+
+
+def parse_pa(s):
+    """the per-account readings: [("nw.acct", balance(account), utxos(account))]"""
+    res = []
+    for x in s.split('+'):
+        if x:
+            g, b, u = x.split('~')
+            res.append((g, int(b), parse_utxos(u)))
+    return res
+
+
 class Oracle:
     """Independent bookkeeping from the property text: which outpoints were consumed by a transaction the wallet
     has sent (and still holds), and what each sent transaction looked like when it was sent."""
 
-    def __init__(self):
+    def __init__(self, default_group='0.0'):
         self.consumed = {}       # txid -> set((prev, n))
         self.sent_view = {}      # txid -> (ins, outs, raw)
+        self.dflt = default_group
+        self.key_acct = {}       # key id -> "nw.acct" when the key was first listed
 
     def step(self, s):
         """s: one adapter step.  Returns a list of (class, message)."""
@@ -230,9 +309,13 @@ class Oracle:
         per_key = {}
         for u in ut:
             per_key[u[3]] = per_key.get(u[3], 0) + u[2]
+        ka = parse_ka(o['ka']) if 'ka' in o else None
         for name, what in (('kb', 'a second Wallet object'), ('kb_orm', 'Wallet.keys()[*].balance'),
                            ('kb_obj', 'WalletKey.balance()')):
             kb = parse_kb(o[name])
+            if ka is not None:
+                # balance() / utxos() without arguments speak about the default account: its keys
+                kb = {k: v for k, v in kb.items() if ka.get(k) == self.dflt}
             if sum(kb.values()) != usum:
                 bad.append(('keysum_ne_unspent:' + name, 'per-key balances read through %s sum to %d, unspent outputs '
                             'sum to %d' % (what, sum(kb.values()), usum)))
@@ -246,6 +329,8 @@ class Oracle:
             if (u[0], u[1]) in spent_now:
                 bad.append(('consumed_listed_unspent', 'output %s:%d was consumed by a sent transaction the wallet '
                             'holds and is listed by utxos()' % (u[0][:12], u[1])))
+        if 'pa' in o:
+            bad += self.per_account(o, ut, spent_now)
         if 'txs2' in o:
             for a, b, what in (('bal', 'bal2', 'balance()'), ('utxos', 'utxos2', 'utxos()'), ('kb', 'kb2', 'key balances'),
                                ('txs', 'txs2', 'stored transactions')):
@@ -266,6 +351,53 @@ class Oracle:
         return bad
 
 
+def per_account(self, o, ut, spent_now):
+    """The balance clauses for EVERY account of the wallet, on the implementation's own answers:
+    balance(account_id=a) == sum utxos(account_id=a) == sum of the balances of the keys of account a; every key
+    balance == that key's unspent outputs over all accounts; the default account's named readings are the
+    default readings; nothing listed for any account is consumed by a sent transaction the wallet holds."""
+    bad = []
+    ka = parse_ka(o['ka'])
+    for k in sorted(ka):
+        if self.key_acct.setdefault(k, ka[k]) != ka[k]:
+            bad.append(('acct_key_moved', 'key %d was created in account %s and is now listed in account %s'
+                        % (k, self.key_acct[k].split('.')[1], ka[k].split('.')[1])))
+            break
+    allut = []
+    for g, b, gl in parse_pa(o['pa']):
+        acct = g.split('.')[1] if g.startswith('0.') else g.split('.')[1] + ', network #' + g.split('.')[0]
+        gsum = sum(u[2] for u in gl)
+        if b != gsum:
+            bad.append(('acct_balance_ne_unspent', 'balance(account_id=%s) = %d but utxos(account_id=%s) sum to %d'
+                        % (acct, b, acct, gsum)))
+        for name, when in (('kb', 'after balance()'), ('kbA', 'after balance(account_id=..)')):
+            ks = sum(v for k, v in parse_kb(o[name]).items() if ka.get(k) == g)
+            if ks != gsum:
+                bad.append(('acct_keysum_ne_unspent:' + name, 'the balances of the keys of account %s (read %s) sum '
+                            'to %d, utxos(account_id=%s) sum to %d' % (acct, when, ks, acct, gsum)))
+        for u in gl:
+            if (u[0], u[1]) in spent_now:
+                bad.append(('consumed_listed_unspent', 'output %s:%d was consumed by a sent transaction the wallet '
+                            'holds and is listed by utxos(account_id=%s)' % (u[0][:12], u[1], acct)))
+        if g == self.dflt and (b != int(o['bal']) or sorted(gl) != sorted(ut)):
+            bad.append(('default_ne_named_account', 'balance()/utxos() = %s/%d outputs, balance/utxos(account_id=%s)'
+                        ' = %d/%d outputs' % (o['bal'], len(ut), acct, b, len(gl))))
+        allut += gl
+    per_key = {}
+    for u in allut:
+        per_key[u[3]] = per_key.get(u[3], 0) + u[2]
+    for name in ('kb', 'kbA'):
+        kb = parse_kb(o[name])
+        d = [k for k in set(kb) | set(per_key) if kb.get(k, 0) != per_key.get(k, 0)]
+        if d:
+            bad.append(('acct_keybal_ne_unspent:' + name, 'key %d has balance %d, its unspent outputs over all '
+                        'accounts sum to %d' % (d[0], kb.get(d[0], 0), per_key.get(d[0], 0))))
+    return bad
+
+
+Oracle.per_account = per_account
+
+
 def split_txs(s):
     """Parse the transaction view text: txid~conf~ins~outs[~raw] joined by ',' (ins/outs use ',' too)."""
     res = []
@@ -276,7 +408,11 @@ def split_txs(s):
     return res
 
 
-CMP_FIELDS = ('kbpre', 'bal', 'utxos', 'kb', 'txs')
+CMP_FIELDS = ('kbpre', 'bal', 'utxos', 'kb', 'txs', 'pa', 'kbA', 'ka')
+# failure classes that a cross-account output explains (the per-account sums and what follows from them); the
+# clauses about spent outputs, reload and the second wallet object stay as they are
+CROSS_EXPLAINS = ('acct_', 'keysum_ne_unspent', 'keybal_ne_unspent', 'balance_ne_unspent', 'default_ne_named_account',
+                  'model_differs:', 'select_inadmissible')
 
 
 def judge(r, mout):
@@ -287,7 +423,7 @@ def judge(r, mout):
     if 'crash' in r:
         return [{'step': -1, 'cls': 'adapter_crash', 'what': r['crash'], 'kind': 'crash'}], stats
     msteps = parse_model(r, mout) if mout is not None else None
-    orc = Oracle()
+    orc = Oracle('0.%d' % r.get('acct', 0))
     prev = None
     fails, seen = [], set()
 
@@ -298,6 +434,7 @@ def judge(r, mout):
 
     model_alive = msteps is not None
     respent = False        # model class predicate store_respends held at some earlier step of this history
+    crossed = False        # model class predicate has_cross held after this or an earlier step
     for i, s in enumerate(r['steps']):
         if s['obs'] is None:
             add({'step': i, 'cls': 'impl_crash', 'what': 'operation %s raised: %s' % (s['op'], s['err']),
@@ -308,26 +445,34 @@ def judge(r, mout):
             stats['errs'] += 1
         if msteps is not None and msteps[i][3]:
             respent = True
+        if msteps is not None and msteps[i][2] is not None and msteps[i][2].get('x') == '1':
+            crossed = True
         for cls, what in orc.step(s):
             if respent and cls in ('consumed_listed_unspent', 'reselected'):
                 cls = 'restore_resets_spent'
+            elif crossed and cls.startswith(CROSS_EXPLAINS):
+                cls = KNOWN_CROSS + ':' + cls
             add({'step': i, 'cls': cls, 'what': what, 'kind': 'property'})
         if msteps is not None:
             guards, sels, mo, _ = msteps[i]
             if not all(guards):
                 stats['guard_false'] += 1
         if model_alive:
+            pre = KNOWN_CROSS + ':' if crossed else ''
             if not all(sels):
-                add({'step': i, 'cls': 'select_inadmissible', 'kind': 'correspondence',
-                     'what': 'the implementation selected an input the model does not list as spendable'})
+                add({'step': i, 'cls': pre + 'select_inadmissible', 'kind': 'correspondence',
+                     'what': 'the implementation selected an input the model does not list as spendable in the '
+                             'account the call named'})
             for f in CMP_FIELDS:
-                if mo[f] != s['obs'][f]:
-                    add({'step': i, 'cls': 'model_differs:' + f, 'kind': 'correspondence',
+                if f not in s['obs']:
+                    continue
+                if mo.get(f) != s['obs'][f]:
+                    add({'step': i, 'cls': pre + 'model_differs:' + f, 'kind': 'correspondence',
                          'what': 'after %s the implementation and the model differ on %s' % (s['op'], f),
-                         'impl': s['obs'][f][:1500], 'model': mo[f][:1500]})
+                         'impl': s['obs'][f][:1500], 'model': (mo.get(f) or '')[:1500]})
                     model_alive = False
                     break
-        cur = tuple(s['obs'][f] for f in ('bal', 'utxos', 'kb', 'txs'))
+        cur = tuple(s['obs'].get(f) for f in ('bal', 'utxos', 'kb', 'txs', 'pa'))
         if prev is not None and cur != prev:
             stats['nontrivial'] += 1
         prev = cur
@@ -441,7 +586,8 @@ def main(tier, seed, replay=None):
     res.trusted.append(core.EXTRACTION_TB)
     res.trusted.append('harness/props/c08.py, harness/impl/c08_impl.py (public Wallet API, PYTHONPATH=%s, fresh '
                        'BCL_DATA_DIR and sqlite file per history, bitcoinlib_test provider wrapped by a recording '
-                       'subclass of Service), ocaml/c08_driver.ml' % core.REPO)
+                       'subclass of Service which answers for the second network from a deterministic stub), '
+                       'ocaml/c08_driver.ml' % core.REPO)
     exe, dout = build_driver(DRIVER)
     if exe is None:
         proof_ok = False
@@ -451,7 +597,10 @@ def main(tier, seed, replay=None):
         rp = json.load(open(replay))
         hs = [(rp['kind'], rp['hid'], rp['ops'])] if 'ops' in rp else []
     else:
-        hs = gen_histories(rng, tier if proof_ok else 'thorough')
+        # operations of a recorded finding class are generated once its entry is present (they are then counted as
+        # known); without the entry they would be reported as violations on every run
+        cross = any(e.get('status') == 'known' and e.get('class') == KNOWN_CROSS for e in load_known(PROP))
+        hs = gen_histories(rng, tier if proof_ok else 'thorough', cross=cross)
 
     known = load_known(PROP)
     failing_input_found = False
@@ -468,6 +617,8 @@ def main(tier, seed, replay=None):
             fs, st = safe_judge(r, mo)
             res.evaluations += st['steps']
             res.count('kind:' + h[0])
+            if 'steps' in r and r['steps'] and r['steps'][-1]['obs']:
+                res.count('accounts:%d' % len(obs_groups(r['steps'][-1]['obs']).split(',')))
             res.count('ops', len(h[2]))
             res.count('steps_with_error_answer', st['errs'])
             res.count('steps_guard_false', st['guard_false'])
@@ -479,7 +630,7 @@ def main(tier, seed, replay=None):
                     res.count('op:' + op.split(':')[0])
                     if s['obs'] is None:
                         break
-                    cur = (s['obs']['bal'], s['obs']['utxos'], s['obs']['kb'], s['obs']['txs'])
+                    cur = (s['obs']['bal'], s['obs']['utxos'], s['obs']['kb'], s['obs']['txs'], s['obs'].get('pa'))
                     if prev is not None and cur != prev:
                         res.distinct.add((h[0], h[1], len(pre)))
                     prev = cur
